@@ -21,7 +21,8 @@ RULE = ("job = seed (+ optional forced (suite, version, EtM) grid cell) -> "
         ">= 1 byte of application data was delivered in some direction"
         ' Op alphabet also has zero-length reads (the documented poll idiom) and re-sending the SAME caller-owned bytearray object; the data phase may run on a resumed connection.'
         ' TLS 1.3 scripts also issue KeyUpdates; a last chunk may be written right before close while the peer asks for more.'
-        " Full-duplex mode: each endpoint's writes run in a second lane of the same connection, interleaved by the scheduler with its parked reads (reader and writer task / thread on one connection).")
+        " Full-duplex mode: each endpoint's writes run in a second lane of the same connection, interleaved by the scheduler with its parked reads (reader and writer task / thread on one connection)."
+        ' Family rs_race: the application assigns recordSize (grow / shrink) while a multi-record write of the same connection is parked on a stalled transport; TLS 1.3 configurations may negotiate the limits across a HelloRetryRequest; in duplex mode recordSize assignments >= 255 are interleaved with parked writes.')
 LEVEL_TEXT = ("Seeded exploration: every negotiable (suite, version) cell "
               "and EtM on/off is visited in the quick tier, then random "
               "configurations and write/read histories under benign schedule "
@@ -38,7 +39,7 @@ PROBES = ["split_1n1", "empty_write", "multi_record_write", "limit_hit",
           "padding_seen", "read_max_lt_buffered", "rsl_negotiated",
           "user_recordsize", "etm", "tls13", "sslv3", "null_cipher",
           "resumed", "zero_length_read", "buffer_reused", "key_update",
-          "close_with_data_in_flight", "full_duplex"]
+          "close_with_data_in_flight", "full_duplex", "rs_race", "hrr"]
 COMPONENTS_REAL = ["tlslite record layer, TLSRecordLayer read/write paths, "
                    "handshake, all pure-Python ciphers/MACs"]
 COMPONENTS_STUB = ["socket (FakeSocket/Pipe)", "os.urandom (per-node PRNG)",
@@ -73,7 +74,18 @@ def plan(tier, base_seed):
         jobs.append({"seed": base_seed * 1000003 + 100000 + i})
     for j in jobs[:2] + jobs[len(cells):len(cells) + 2]:
         j["keep"] = True
-    return jobs
+    # the application assigns recordSize while a multi-record write of the
+    # same connection is waiting for the transport
+    race = []
+    for ver in ([3, 4], [3, 3], [3, 1]):
+        for who in "cs":
+            for rs0, rs1 in ((512, 2048), (512, 128), (16384, 256),
+                             (300, 16384)):
+                for stall in (0, 200, rs0 + 100, 2 * rs0 + 5):
+                    race.append({"seed": base_seed * 1000003 + 700000 +
+                                 len(race), "fam": "rs_race",
+                                 "race": [ver, who, rs0, rs1, stall]})
+    return jobs[:2] + race + jobs[2:]
 
 
 def draw_config(ch, cell):
@@ -93,6 +105,11 @@ def draw_config(ch, cell):
         sc["cset"]["padding_cb"] = PADS[ch.draw(len(PADS), "cfg.pad_c")]
         sc["sset"]["padding_cb"] = PADS[ch.draw(len(PADS), "cfg.pad_s")]
         sc["sset"]["ticket_count"] = ch.draw(3, "cfg.tickets")
+        if ch.draw(3, "cfg.hrr") == 1:
+            # no key share in the first ClientHello: the limits are
+            # negotiated across a HelloRetryRequest
+            sc["cset"]["keyShares"] = []
+            sc["hrr"] = True
     sc["policy"] = ["ideal", "random", "random"][ch.draw(3, "cfg.policy")]
     # the data phase may also run on a resumed connection (abbreviated
     # handshake renegotiates the limits from the ServerHello extensions)
@@ -217,7 +234,66 @@ def _early(job, ch, sim, pair, sc, probes):
             "sample": {"scenario": sc}}
 
 
+def run_rs_race(job):
+    from sim.loop import Lane
+    seed = job["seed"]
+    ver, who, rs0, rs1, stall = job["race"]
+    peer = "s" if who == "c" else "c"
+    sid = 0x1301 if tuple(ver) == (3, 4) else 0x002f
+    sc = scen.suite_scenario(sid, tuple(ver))
+    ch = kernel.Chooser(streams={})
+    sim = nodes.new_run(seed, chooser=ch, max_steps=200000, sched="first")
+    pair = nodes.Pair(sim, sc, policy="ideal")
+    viol = []
+    probes = {"rs_race": 1}
+    oc, os_, st = pair.handshake()
+    if not (oc.kind == "ok" and os_.kind == "ok"):
+        raise RuntimeError("rs_race handshake failed")
+    eps = {"c": pair.c, "s": pair.s}
+    A, P = eps[who], eps[peer]
+    n = 3 * max(rs0, rs1) + 77 if max(rs0, rs1) < 8000 else 40000
+    data = scen.payload(1 if who == "c" else 2, 0, n)
+    A.conn.recordSize = rs0
+    out_pipe = pair.link.c2s if who == "c" else pair.link.s2c
+    A.sock.stall_after = len(out_pipe.sent_log) + stall
+    W = Lane(A)
+    ow = W.start(("write",), lambda: A.conn.writeAsync(data))
+    while W.op is not None and W.blocked != "w":
+        W.step()
+    parked = W.op is not None
+    A.conn.recordSize = rs1
+    A.sock.stall_after = None
+    orr = P.start(("read",), lambda: P.conn.readAsync(None, n))
+    st = sim.run()
+    got = bytes(orr.value) if orr.kind == "ok" else None
+    if ow.kind != "ok" or got != data:
+        k = 0
+        while got and k < min(len(got), n) and got[k] == data[k]:
+            k += 1
+        viol.append({"rule": "fifo", "sig": "rs_race|%s" % (
+            "grow" if rs1 > rs0 else "shrink"),
+            "msg": "recordSize set from %d to %d while a %d-byte write was "
+            "parked after %d bytes on the wire: writer %s, reader got %s "
+            "bytes, first difference at %d [ver=%s who=%s]" % (
+                rs0, rs1, n, stall, ow.kind if ow.kind != "exc" else
+                repr(ow.exc), len(got) if got is not None else
+                repr(orr.exc), k, ver, who)})
+    h = hashlib.sha256()
+    h.update(bytes(pair.link.c2s.wire_log))
+    h.update(bytes(pair.link.s2c.wire_log))
+    h.update(json.dumps([x["sig"] for x in viol]).encode())
+    return {"violations": viol, "nontrivial": parked,
+            "key": hashlib.sha256(json.dumps(job["race"]).encode()
+                                  ).hexdigest(),
+            "digest": h.hexdigest(), "faults": dict(sim.stats),
+            "probes": probes, "steps": sim.steps, "order": "",
+            "states": ["rs_race/%s" % ver], "streams": {},
+            "inconclusive": False, "sample": {"race": job["race"]}}
+
+
 def run(job, streams=None):
+    if job.get("fam") == "rs_race":
+        return run_rs_race(job)
     seed = job["seed"]
     ch = kernel.Chooser(seed=seed) if streams is None else \
         kernel.Chooser(streams=streams)
@@ -350,7 +426,11 @@ def run(job, streams=None):
             # exercised here.
             from sim.loop import Lane
             eps["cw"], eps["sw"] = Lane(pair.c), Lane(pair.s)
-            script = [[o[0] + "w"] + o[1:] if o[1] in ("write", "recordsize")
+            # (recordSize assignments >= 255 stay with the reads: the
+            # application may set the attribute while a write is parked;
+            # tiny values stay in sequence with the writes - cost)
+            script = [[o[0] + "w"] + o[1:] if o[1] == "write" or
+                      (o[1] == "recordsize" and o[2] < 255)
                       else o for o in script if o[1] != "ku"]
             probes["full_duplex"] = 1
         st = sim_script.run_script(sim, eps, script, op_gen)
@@ -469,6 +549,8 @@ def run(job, streams=None):
             probes["rsl_negotiated"] = 1
         if ver == (3, 4):
             probes["tls13"] = 1
+        if sc.get("hrr"):
+            probes["hrr"] = 1
         if ver == (3, 0):
             probes["sslv3"] = 1
         if suite.kind == "null":
